@@ -208,6 +208,9 @@ func VerifH_C16_form() {
 }
 
 func (c contractorLog) RenewV2Contract(ts rhp4.TransactionSet, u proto4.Usage) error {
+	if n := len(ts.Transactions); n > 0 && len(ts.Transactions[n-1].FileContractResolutions) == 1 {
+		vapi.Assert("persist.contract-locked", c.VerifLocked(ts.Transactions[n-1].FileContractResolutions[0].Parent.ID))
+	}
 	*c.log = append(*c.log, "renew-contract")
 	return c.EphemeralContractor.RenewV2Contract(ts, u)
 }
